@@ -42,6 +42,9 @@ structure Sem (Val Err Op : Type) where
   isNone : Val → Bool                      -- `value is None`
   hasAttr : Val → Op → Bool                -- `name in dir(value)` for a method call
   attrErr : Err                            -- AttributeError
+  iterLen : Val → Option Nat               -- `len(value)` of an iterable value (`x in expr` falls back to rx.__iter__)
+  typeErr : Err                            -- TypeError
+  ofBool : Bool → Val                      -- a plain Python bool
 
 /-- an operand of an operation / bound function / `where` -/
 inductive Arg (Val : Type) where
@@ -330,12 +333,14 @@ inductive Stmt (Val Op : Type) where
   | rootp (p : PId)                                         -- rx(obj.param.p)
   | op (n : NId) (o : Op) (rev : Bool) (args : List (Arg Val))  -- operator / helper applied to node n
   | meth (n : NId) (o : Op) (args : List (Arg Val))         -- n.method(*args)
+  | meth2 (n : NId) (o : Op) (args args2 : List (Arg Val))  -- acc = n.method; acc(*args); acc(*args2)
   | bind (g : Op) (args : List (Arg Val))                   -- rx(bind(g, *args))
   | where_ (c x y : Arg Val)                                -- rx(c.rx.where(x, y))
   | watch (n : NId)                                         -- n.rx.watch(cb)
   | set (p : PId) (v : Val)                                 -- root.rx.value = v / obj.p = v
   | read (n : NId)                                          -- n.rx.value
   | ref (n : NId)                                           -- H(v=n) with `v = Parameter(allow_refs=True)`
+  | isin (n : NId) (cop : Op) (x : Val)                     -- the Python expression `x in n` (`cop` = operator.contains, for the spec)
   | readref (h : Nat)                                       -- holder h: `h.v`
 
 inductive Outcome (Val Err : Type) where
@@ -446,6 +451,15 @@ def deriveNode (S : Sem Val Err Op) (fuel : Nat) (c : NId) (o : Operation Val Op
       | some w2 => (.ok w1.nodes.length, w2)
     | _, _ => (.error .bad, w1)
 
+/-- src: rx.__call__ on an accessor node (`acc = expr.method; acc(*args)`): a private copy of the accessor
+(`self._clone(copy=True)`, whose `_method` is consumed) and the call operation chained on that copy;
+the accessor itself keeps its pending method name and can be called again -/
+def callAcc (S : Sem Val Err Op) (fuel : Nat) (c1 : NId) (o : Op) (args : List (Arg Val)) (w : World Val Err Op) :
+    Res Err NId × World Val Err Op :=
+  match copyNode S fuel c1 w with
+  | (.error x, w2) => (.error x, w2)
+  | (.ok c2, w2) => deriveNode S fuel c2 { op := o, args := args, reverse := false } w2
+
 def allocParam (w : World Val Err Op) (v : Val) (input : Bool) : World Val Err Op :=
   { w with vals := fun q => if q = w.nparams then v else w.vals q, nparams := w.nparams + 1,
            inputs := if input then w.inputs ++ [w.nparams] else w.inputs }
@@ -496,12 +510,29 @@ def step (S : Sem Val Err Op) (fuel : Nat) (w : World Val Err Op) : Stmt Val Op 
         match copyNode S fuel n w1 with                 -- _resolve_accessor(); new._method = name
         | (.error x, w2) => (outOfExn x, w2)
         | (.ok c1, w2) =>
-          match copyNode S fuel c1 w2 with              -- rx.__call__: self._clone(copy=True)
-          | (.error x, w3) => (outOfExn x, w3)
-          | (.ok c2, w3) =>
-            match deriveNode S fuel c2 { op := o, args := args, reverse := false } w3 with
-            | (.error x, w4) => (outOfExn x, w4)
-            | (.ok _, w4) => (.created, w4)
+          match callAcc S fuel c1 o args w2 with          -- rx.__call__
+          | (.error x, w4) => (outOfExn x, w4)
+          | (.ok _, w4) => (.created, w4)
+  | .meth2 n o args args2 =>
+    if (refsAll w args).isNone || (argExprs w args).isNone || (refsAll w args2).isNone || (argExprs w args2).isNone
+    then (.bad, w) else
+    match w.nodes[n]? with
+    | none => (.bad, w)
+    | some nd =>
+      let r := if nd.dirty then run S fuel (.resolve n) w else (.ok nd.current, w)
+      match r with
+      | (.error x, w1) => (outOfExn x, w1)
+      | (.ok cur, w1) =>
+        if !S.hasAttr cur o then (.createErr S.attrErr, w1) else
+        match copyNode S fuel n w1 with                 -- acc = n.method
+        | (.error x, w2) => (outOfExn x, w2)
+        | (.ok c1, w2) =>
+          match callAcc S fuel c1 o args w2 with          -- acc(*args)
+          | (.error x, w4) => (outOfExn x, w4)
+          | (.ok _, w4) =>
+            match callAcc S fuel c1 o args2 w4 with       -- acc(*args2): the same accessor object again
+            | (.error x, w6) => (outOfExn x, w6)
+            | (.ok _, w6) => (.created, w6)
   | .bind g args =>
     match argExprs w args with
     | none => (.bad, w)
@@ -552,6 +583,19 @@ def step (S : Sem Val Err Op) (fuel : Nat) (w : World Val Err Op) : Stmt Val Op 
       | (.error (.py e), w1) => (.createErr e, w1)
       | (.error .fuel, w1) => (.fuel, w1)
       | (.error .bad, w1) => (.bad, w1)
+  | .isin n _ _ =>
+    -- src: class rx has no `__contains__` (the method is spelled `__contains_`): Python falls back to
+    -- rx.__iter__ (reads `self._current`; TypeError for a non-iterable value; yields one rx per item) and
+    -- tests `item == x`, an rx whose `__bool__` is True: the answer is `len(value) > 0`, whatever x is.
+    -- (The nodes `__iter__` / `__eq__` create are unreachable; their only effect on the state is the read.)
+    match run S fuel (.resolve n) w with
+    | (.ok val, w1) =>
+      match S.iterLen val with
+      | none => (.readErr S.typeErr, w1)
+      | some k => (.read (S.ofBool (k != 0)), w1)
+    | (.error (.py e), w1) => (.readErr e, w1)
+    | (.error .fuel, w1) => (.fuel, w1)
+    | (.error .bad, w1) => (.bad, w1)
   | .readref h =>
     match w.holders[h]? with
     | some v => (.read v, w)
